@@ -3,7 +3,7 @@
 correspondence: the Lean model (`Drivers/C20.lean`, complex doubles) and `prysm.x.polarization` on the same random
 parameters (rotation, linear retarder, half/quarter-wave plate, diattenuator, polariser, vector vortex retarder,
 Jones->Mueller, Pauli coefficients), compared at 1e-9; the property's own predicates (unitarity, idempotence, Malus,
-rotate = conjugation, Mueller multiplicativity, unitary -> orthogonal with M00 = 1, Pauli reconstruction, batched =
+rotate = conjugation (retarder, diattenuator, vortex), Mueller multiplicativity, unitary -> orthogonal with M00 = 1, Pauli reconstruction, batched =
 element-by-element, polarised propagation = per-component propagation) are evaluated on the REAL outputs.
 """
 import math
@@ -104,6 +104,14 @@ def pred(item, c):
             a, b = P.linear_diattenuator(c['param'], c['theta']), P.linear_diattenuator(c['param'], 0)
         e = _err(a, Rm @ b @ R)
         return e <= PTOL, f'{c["kind"]}({c["param"]!r}, theta={c["theta"]!r}) vs R(-theta) element(0) R(theta): {e!r}'
+    if item == 'vortex_rotate':
+        az = np.array(c['azimuth'], dtype=float)
+        a = P.vector_vortex_retarder(c['charge'], az.copy(), c['retardance'], c['rotate'])
+        b = P.vector_vortex_retarder(c['charge'], az.copy(), c['retardance'], 0)
+        R, Rm = P.jones_rotation_matrix(c['rotate']), P.jones_rotation_matrix(-c['rotate'])
+        e = _err(a, Rm @ b @ R)
+        return e <= PTOL, (f'vortex(charge={c["charge"]!r}, retardance={c["retardance"]!r}, rotate={c["rotate"]!r}) vs '
+                           f'R(-rotate) vortex(rotate=0) R(rotate): {e!r}')
     if item == 'mueller_mul':
         A, B = _l2m(c['A']), _l2m(c['B'])
         lhs = P.jones_to_mueller(A @ B, broadcast=c.get('broadcast', True))
@@ -175,6 +183,16 @@ def pred(item, c):
         rng = np.random.Generator(np.random.PCG64(c['seed']))
         shp = tuple(c['shape'])
         E = rng.normal(size=shp + (2, 2)) + 1j * rng.normal(size=shp + (2, 2))
+        kind = c.get('pupil', 'generic')
+        if kind == 'near_symmetric':          # off-diagonals differ by 1e-6 relative
+            E[..., 1, 0] = E[..., 0, 1] * (1 + 1e-6)
+        elif kind == 'near_symmetric_abs':    # off-diagonals differ by ~1e-9 absolute on O(1) data
+            E[..., 1, 0] = E[..., 0, 1] + 1e-9 * (rng.normal(size=shp) + 1j * rng.normal(size=shp))
+        elif kind == 'weak':                  # tiny overall amplitude, unrelated off-diagonals
+            E = E * 1e-9
+        elif kind == 'weak_offdiag':          # O(1) diagonal, tiny unrelated off-diagonals
+            E[..., 0, 1] *= 1e-10
+            E[..., 1, 0] *= 1e-10
         base = getattr(propagation, c['func'])
         base = getattr(base, '__wrapped__', base)
         f = P.jones_adapter(base)
@@ -186,10 +204,16 @@ def pred(item, c):
                 ref = base(E[..., i, j], *args, **kw)
                 if out.shape != ref.shape + (2, 2):
                     return False, f'output shape {out.shape}, per-component shape {ref.shape}'
-                worst = max(worst, _err(out[..., i, j], ref))
+                # relative to THIS component's own scale (the four components are independent fields)
+                scale = float(np.max(np.abs(ref))) or 1.0
+                e = float(np.max(np.abs(out[..., i, j] - ref))) / scale
+                worst = max(worst, e)
+                if e > 1e-9:
+                    return False, (f'{c["func"]} ({kind} pupil): component [{i},{j}] differs from propagating that component '
+                                   f'alone by {e!r} of its own scale')
         scal = f(E[..., 0, 0], *args, **kw)
         worst = max(worst, _err(scal, base(E[..., 0, 0], *args, **kw)))
-        return worst <= 1e-13, f'{c["func"]}: polarised propagation vs per-component propagation: {worst!r}'
+        return worst <= 1e-9, f'{c["func"]} ({kind} pupil): polarised propagation vs per-component propagation: {worst!r}'
     if item == 'apply_optic':
         rng = np.random.Generator(np.random.PCG64(c['seed']))
         shp = tuple(c['shape'])
@@ -323,6 +347,9 @@ def correspondence(ctx):
                                 'rotate': float(rng.choice([0.0, _angle(rng)]))}, tag=f'vortex{S}')
         _check(ctx, 'polarizer', {'theta': th, 'phi': _angle(rng)})
         _check(ctx, 'wave_plates', {'theta': th})
+        ro = _angle(rng)
+        _check(ctx, 'vortex_rotate', {'charge': q, 'azimuth': az.tolist(), 'retardance': _ret(rng), 'rotate': ro},
+               nontrivial=(ro != 0), tag=f'vortex{S}')
         kind = ['retarder', 'diattenuator'][i % 2]
         _check(ctx, 'rotate_conj', {'kind': kind, 'param': de if kind == 'retarder' else round(float(rng.uniform(0, 1)), 4),
                                     'theta': th}, nontrivial=(th != 0))
@@ -350,8 +377,9 @@ def correspondence(ctx):
         ctx.notes.append(f'supported_propagation_funcs = {list(P.supported_propagation_funcs)}: only {funcs} are exercised')
     for i in range(ctx.scale(15, 100) if funcs else 0):
         fn = sorted(funcs)[i % len(funcs)]
-        _check(ctx, 'adapter', {'func': fn, 'shape': [[8, 6], [7, 9], [8, 8]][i % 3], 'seed': int(rng.integers(0, 2 ** 31))},
-               tag=fn)
+        for pupil in ('generic', 'near_symmetric', 'near_symmetric_abs', 'weak', 'weak_offdiag'):
+            _check(ctx, 'adapter', {'func': fn, 'shape': [[8, 6], [7, 9], [8, 8]][i % 3], 'seed': int(rng.integers(0, 2 ** 31)),
+                                    'pupil': pupil}, tag=f'{fn}/{pupil}')
         _check(ctx, 'apply_optic', {'shape': [[8, 6], [5, 5]][i % 2], 'seed': int(rng.integers(0, 2 ** 31))})
     # add_jones_propagation installs exactly that adapter on the propagation module (restored afterwards)
     from prysm import propagation
@@ -411,8 +439,13 @@ def _small_scope():
     for what in ('retarder', 'rotation', 'shape_broadcast', 'vortex', 'mueller', 'pauli'):
         for S in ([2], [2, 2]):
             yield 'batch', {'what': what, 'shape': S, 'seed': 1, 'theta': 0.3, 'charge': 2.0, 'retardance': 1.0, 'rotate': 0.2}
+    for q in (1.0, 2.0):
+        for de in (math.pi, 1.0):
+            for ro in (0.4, math.pi / 2, 1.0):
+                yield 'vortex_rotate', {'charge': q, 'azimuth': [0.0, 0.7], 'retardance': de, 'rotate': ro}
     for fn in sorted(_PROP_ARGS):
-        yield 'adapter', {'func': fn, 'shape': [8, 6], 'seed': 1}
+        for pupil in ('generic', 'near_symmetric', 'near_symmetric_abs', 'weak', 'weak_offdiag'):
+            yield 'adapter', {'func': fn, 'shape': [8, 6], 'seed': 1, 'pupil': pupil}
     yield 'apply_optic', {'shape': [4, 3], 'seed': 1}
 
 
@@ -439,6 +472,8 @@ def search(ctx, hints):
         for item, c in (('unitary', {'kind': 'linear', 'retardance': de, 'theta': th}),
                         ('unitary', {'kind': 'vortex', 'charge': float(rng.integers(-3, 7)), 'azimuth': [round(float(rng.uniform(-3, 3)), 3)],
                                      'retardance': de, 'rotate': th}),
+                        ('vortex_rotate', {'charge': float(rng.integers(-3, 7)), 'azimuth': [round(float(rng.uniform(-3, 3)), 3)],
+                                           'retardance': de, 'rotate': th}),
                         ('polarizer', {'theta': th, 'phi': _angle(rng)}),
                         ('mueller_mul', {'A': _cm(rng), 'B': _cm(rng)}),
                         ('mueller_unitary', {'phase': 0.1, 'retardance': de, 'theta': th, 'theta2': _angle(rng)}),
@@ -460,6 +495,10 @@ def replay(inp):
     elif item in ('half_wave_plate', 'quarter_wave_plate'):
         item, c = 'wave_plates', {'theta': c['theta']}
     elif item == 'vector_vortex_retarder':
+        ok, detail = pred('vortex_rotate', c)
+        print(detail, '-> holds' if ok else '-> VIOLATED')
+        if not ok:
+            return True
         item, c = 'unitary', {**c, 'kind': 'vortex'}
     elif item in ('linear_polarizer', 'linear_diattenuator'):
         item, c = 'polarizer', {'theta': c['theta'], 'phi': 0.3}
@@ -495,7 +534,8 @@ MANIFEST_ENTRY = {
              '_empty_jones, jones_to_mueller, broadcast_kron, supported_propagation_funcs. MODELLED AND COMPARED (1e-9): all '
              'constructors, Mueller matrices and Pauli coefficients on random parameters. CORRESPONDENCE ONLY: batched = element-by-'
              'element for leading shapes (), (5,), (3,4), (2,1,3); polarised focus / unfocus / *_fixed_sampling / angular_spectrum '
-             '= per-component propagation; apply_polarization_optic.'),
+             '= per-component propagation (generic, nearly symmetric and weak Jones pupils, each component at 1e-9 of its own scale); '
+             'vortex(rotate) = R(-rotate) vortex(0) R(rotate) on the real code; apply_polarization_optic.'),
     'note': ('Trusted: Lean kernel + standard axioms; translator (incl. reading jones_rotation_matrix(-theta) as (cos theta, -sin theta)); '
              'NumPy matmul/einsum/kron/inv; IEEE rounding. Not covered: polarisation-vector helpers (circular_pol_vector(shape=...) '
              'raises IndexError - outside the statement); linear_retarder/diattenuator reject a batched theta (API limit, noted). '
